@@ -13,6 +13,7 @@ import (
 	"bytes"
 	"context"
 	"encoding/json"
+	"errors"
 	"flag"
 	"fmt"
 	"io"
@@ -42,6 +43,8 @@ type Cfg struct {
 	Mode     uint32 `json:"mode"`
 	Foreign  []int  `json:"foreign,omitempty"` // indices into foreignNames, planted before the first call
 	PreDir   bool   `json:"pre_dir,omitempty"` // the directory exists already (mode 0750)
+	PathVar  int    `json:"path_var,omitempty"` // how Path is spelt: 0 absolute, 1 with a trailing slash, 2 relative to the working directory, 3 nested two levels below a directory that does not exist yet, 4 below a regular file (every open must fail)
+	Format   string `json:"format,omitempty"`   // FileSink.Format: "" (defaults to JSONFormat), "json" explicitly, or another name
 	// fsize cases: the child runs with RLIMIT_FSIZE = FsizeLimit and processes FsizeEvents events
 	FsizeLimit  int `json:"fsize_limit,omitempty"`
 	FsizeEvents int `json:"fsize_events,omitempty"`
@@ -51,6 +54,7 @@ type Op struct {
 	Size    int    `json:"size,omitempty"`
 	PauseUs int    `json:"pause_us,omitempty"`
 	Ctx     int    `json:"ctx,omitempty"` // w: which kind of context Process is called with (see ctxOf)
+	NoFmt   bool   `json:"no_fmt,omitempty"`  // w: the event carries other formats but not the sink's: Process must refuse it and touch nothing
 	NilVal  bool   `json:"nil_val,omitempty"` // w with size 0: the formatted value is nil (present in the map) rather than []byte{}
 	Pos     int    `json:"pos,omitempty"`     // touch / append: which file of the sink, 0 = oldest in reading order
 	When    int    `json:"when,omitempty"`    // touch: 0 now, 1 an hour ago, 2 in an hour
@@ -128,10 +132,27 @@ var foreignNames = func(fileName string) []string {
 		packed = ".old" // … unless ext is .gz itself
 	}
 	out := []string{"", "other.txt", fileName + ".bak", "x" + base + "-1700000000000000000" + ext, base + "_17" + ext,
-		base + "-1700000000000000000" + ext + packed, "", ""}
+		base + "-1700000000000000000" + ext + packed, "", "",
+		// near-misses of a rotated name: other case, surrounding blanks, other case of the extension, no dash, a longer stem
+		strings.ToUpper(base) + "-1700000000000000000" + ext, " " + base + "-1700000000000000000" + ext,
+		base + "-1700000000000000000" + ext + " ", base + "-1700000000000000000" + strings.ToUpper(ext),
+		base + "1700000000000000000" + ext, base + "x-1700000000000000000" + ext,
+		// … and of the plain name
+		strings.ToUpper(fileName[:1]) + fileName[1:], fileName + " "}
 	if nb := neighbourStem(fileName); nb != "" {
 		out[6] = nb + "-archive" + ext             // sys-archive.log next to syslog.log
 		out[7] = nb + "-1700000000000000000" + ext // a rotated file of another sink called sys.log
+	}
+	ns := newNamespace(fileName)
+	seen := map[string]bool{}
+	for i, n := range out {
+		if i == 0 {
+			continue
+		}
+		if k, _ := ns.classify(n); n == "" || k != 0 || seen[n] || len(n) > 250 {
+			out[i] = "" // would be in the sink's own name space (e.g. the case twin of a name without letters), or a duplicate
+		}
+		seen[n] = true
 	}
 	return out
 }
@@ -140,7 +161,8 @@ const foreignContent = "not an event\n"
 
 // ---------- contexts ----------
 // FileSink.Process takes a context; whatever it is, "returned nil" must mean "the event is in the file".
-// 0 Background, 1 live and cancellable, 2 already cancelled, 3 deadline in the past, 4 a custom type whose Err() is non-nil
+// 0 Background, 1 live and cancellable, 2 already cancelled, 3 deadline in the past, 4 a custom type whose Err() is non-nil,
+// 5 cancelled with a custom cause, 6 cancelled by another goroutine while the call is in flight
 type doneCtx struct{ context.Context }
 
 func (doneCtx) Err() error            { return context.Canceled }
@@ -158,6 +180,14 @@ func ctxOf(kind int) (context.Context, context.CancelFunc) {
 		return context.WithDeadline(context.Background(), time.Now().Add(-time.Hour))
 	case 4:
 		return doneCtx{context.Background()}, func() {}
+	case 5:
+		c, cancel := context.WithCancelCause(context.Background())
+		cancel(errors.New("custom cause"))
+		return c, func() {}
+	case 6: // cancelled while the call is (about to be) in flight
+		c, cancel := context.WithCancel(context.Background())
+		go cancel()
+		return c, func() {}
 	}
 	return context.Background(), func() {}
 }
@@ -475,18 +505,48 @@ func execSeq(c Case, root string) (res result) {
 	}
 	defer os.RemoveAll(filepath.Dir(dir))
 	dm := 0
-	if c.Cfg.Path == "dir" && (c.Cfg.PreDir || len(c.Cfg.Foreign) > 0) {
-		if err := os.Mkdir(dir, 0o750); err != nil {
+	top := filepath.Dir(dir)
+	blocked := c.Cfg.PathVar == 4
+	switch c.Cfg.PathVar {
+	case 3:
+		dir = filepath.Join(dir, "a", "b") // MkdirAll has three levels to make
+	case 4:
+		if err := os.WriteFile(dir, []byte("a file where a directory is expected\n"), 0o644); err != nil {
 			panic(err)
 		}
+		dir = filepath.Join(dir, "sub")
+	}
+	if c.Cfg.Path == "dir" && !blocked && (c.Cfg.PreDir || len(c.Cfg.Foreign) > 0) {
+		if err := os.MkdirAll(dir, 0o750); err != nil {
+			panic(err)
+		}
+		os.Chmod(dir, 0o750) // whatever the umask
 		dm = 0o750
 		for _, f := range c.Cfg.Foreign {
-			if err := os.WriteFile(filepath.Join(dir, fnames[f]), []byte(foreignContent), 0o644); err != nil {
+			p := filepath.Join(dir, fnames[f])
+			if err := os.WriteFile(p, []byte(foreignContent), 0o644); err != nil {
 				panic(err)
+			}
+			os.Chmod(p, 0o644)
+		}
+	}
+	sinkPath := dir
+	switch c.Cfg.PathVar {
+	case 1:
+		sinkPath = dir + "/"
+	case 2:
+		if wd, err := os.Getwd(); err == nil {
+			if rel, err := filepath.Rel(wd, dir); err == nil {
+				sinkPath = rel
 			}
 		}
 	}
-	fs := &el.FileSink{Path: dir, FileName: c.Cfg.FileName, MaxBytes: c.Cfg.MaxBytes, MaxFiles: c.Cfg.MaxFiles,
+	fmtKey := c.Cfg.Format
+	if fmtKey == "" {
+		fmtKey = el.JSONFormat
+	}
+	_ = top
+	fs := &el.FileSink{Path: sinkPath, Format: c.Cfg.Format, FileName: c.Cfg.FileName, MaxBytes: c.Cfg.MaxBytes, MaxFiles: c.Cfg.MaxFiles,
 		MaxDuration: time.Duration(c.Cfg.MaxDurMs) * time.Millisecond, TimestampOnlyOnRotate: c.Cfg.TsOnly, Mode: os.FileMode(c.Cfg.Mode)}
 	var outF, errF *os.File
 	special := c.Cfg.Path != "dir"
@@ -591,7 +651,14 @@ func execSeq(c Case, root string) (res result) {
 					data = nil // present in the map, nil: Event.Format reports it as existing
 				}
 			}
-			ev := &el.Event{Formatted: map[string][]byte{el.JSONFormat: data}}
+			// the event carries the sink's format (unless NoFmt) and a decoy under another name whose bytes must never reach a file
+			pristine := append([]byte(nil), data...)
+			ev := &el.Event{Formatted: map[string][]byte{"decoy-format": {0xFE, 0xFD, 0xFC}}}
+			if !op.NoFmt {
+				ev.Formatted[fmtKey] = data
+			} else if fmtKey != el.JSONFormat {
+				ev.Formatted[el.JSONFormat] = []byte{0xFB, 0xFA}
+			}
 			lcPrev := fs.LastCreated
 			before := stampsOf(prev)
 			var eLo, eHi int64
@@ -603,6 +670,9 @@ func execSeq(c Case, root string) (res result) {
 			_, err := fs.Process(pctx, ev)
 			pcancel()
 			res.stats[fmt.Sprintf("process_ctx_kind_%d", op.Ctx)]++
+			if !op.NoFmt && !bytes.Equal(ev.Formatted[fmtKey], pristine) {
+				panic("the sink changed the caller's formatted bytes")
+			}
 			if open {
 				eHi = int64(time.Since(lcPrev))
 			}
@@ -688,10 +758,12 @@ func execSeq(c Case, root string) (res result) {
 			fd.T[3] = obsOr(lcAfter, rotated && err == nil && !special)
 			fd.T[4] = obsOr(0, false)
 			last = max64(cur, tA)
-			if rotated {
+			if rotated && !op.NoFmt {
 				rotations++
 			}
-			if err == nil && !special {
+			if op.NoFmt {
+				// refused before the lock was taken: the sink's state, and so the mirror, is unchanged
+			} else if err == nil && !special {
 				if lcChanged || !open {
 					if modeA {
 						activeName = ns.stamped(fs.LastCreated.UnixNano())
@@ -702,6 +774,13 @@ func execSeq(c Case, root string) (res result) {
 				open = true
 			} else if !special {
 				open = false
+			}
+			if op.NoFmt {
+				// refused before the lock: the model's XUnformatted (ok = false, nothing changes)
+				steps = append(steps, step{"XUnformatted " + hc.Z(fd.T[4]), o})
+				res.obs, res.feeds, prev = append(res.obs, o), append(res.feeds, fd), o
+				res.stats["writes_without_the_sinks_format"]++
+				break
 			}
 			steps = append(steps, step{fmt.Sprintf("XOp (Write %s %s %s %s %s %s %s nofault)", hc.N(key), hc.Z(int64(op.Size)),
 				hc.Z(fd.T[0]), hc.Z(fd.T[1]), hc.Z(fd.T[2]), hc.Z(fd.T[3]), hc.Z(fd.T[4])), o})
@@ -835,7 +914,7 @@ func execSeq(c Case, root string) (res result) {
 	res.stats["steps"] = len(steps)
 	res.nontriv = rotations > 0 || extrens > 0
 	res.sig = sigb.String()
-	res.lit = caseLit(c.ID, c.Cfg, dm, 0, nil, true, steps)
+	res.lit = caseLit(c.ID, c.Cfg, dm, 0, nil, !blocked, steps)
 	return res
 }
 
@@ -862,7 +941,11 @@ func max64(a, b int64) int64 {
 // file-name shapes: the usual one, another extension, no extension, several dots, a stem ending in characters of its own
 // extension (strings.TrimRight vs TrimSuffix), an extension-only name, a one-letter stem
 var fileNames = []string{"audit.log", "audit.log", "ev.json", "noext", "a.b.c", "syslog.log", "catalog.log", "data.dat", "test.txt",
-	"x.tar.gz", ".log", "g.log"}
+	"x.tar.gz", ".log", "g.log",
+	// look-alike stems: no extension, doubled extension, other case, leading blank, a stem ending in digits / in something
+	// that looks like a stamp, a long name
+	"audit", "audit.log.log", "Audit.log", " audit.log", "audit2024.log", "audit-1700000000000000000.log",
+	strings.Repeat("n", 180) + ".log"}
 
 func genCfg(r *hc.Rand, timeCases bool) Cfg {
 	c := Cfg{Path: "dir", FileName: fileNames[r.Intn(len(fileNames))]}
@@ -876,7 +959,18 @@ func genCfg(r *hc.Rand, timeCases bool) Cfg {
 	default:
 		c.MaxBytes = []int{10, 25, 50, 100, 150, 200, 1 + r.Intn(300), 1 + r.Intn(300)}[r.Intn(8)]
 	}
+	switch r.Intn(24) {
+	case 0:
+		c.MaxBytes = -1 // never rotates by size, and does not switch to stamped names either
+	case 1:
+		c.MaxBytes = 1 << 40
+	}
 	c.MaxFiles = r.Intn(4)
+	if !timeCases && r.Chance(1, 20) {
+		c.MaxDurMs = -1 // != 0: stamped names; not > 0: never rotates by time
+	}
+	c.PathVar = []int{0, 0, 0, 1, 2, 3}[r.Intn(6)]
+	c.Format = []string{"", "", "json", "cev"}[r.Intn(4)]
 	if timeCases {
 		c.MaxDurMs = 30
 		if r.Chance(1, 2) {
@@ -884,7 +978,7 @@ func genCfg(r *hc.Rand, timeCases bool) Cfg {
 		}
 	}
 	c.TsOnly = r.Bool()
-	c.Mode = []uint32{0, 0, 0o600, 0o644, 0o640, 0o666, 0o400 | 0o200 | 0o040}[r.Intn(7)]
+	c.Mode = []uint32{0, 0, 0o600, 0o644, 0o640, 0o666, 0o400 | 0o200 | 0o040, 0o400}[r.Intn(8)]
 	fn := foreignNames(c.FileName)
 	if r.Chance(1, 2) {
 		k := 1 + r.Intn(3)
@@ -895,7 +989,7 @@ func genCfg(r *hc.Rand, timeCases bool) Cfg {
 			k += 2
 		}
 		for len(c.Foreign) < k {
-			f := 1 + r.Intn(7)
+			f := 1 + r.Intn(len(fn)-1)
 			if fn[f] != "" && !seen[f] {
 				seen[f] = true
 				c.Foreign = append(c.Foreign, f)
@@ -904,6 +998,10 @@ func genCfg(r *hc.Rand, timeCases bool) Cfg {
 		sort.Ints(c.Foreign)
 	} else if r.Chance(1, 4) {
 		c.PreDir = true
+	}
+	if r.Chance(1, 40) {
+		// a component of Path is a regular file: every open fails; judged by the oracles alone (nothing acknowledged, nothing made)
+		c.PathVar, c.Foreign, c.PreDir, c.MaxFiles = 4, nil, false, 0
 	}
 	return c
 }
@@ -950,7 +1048,13 @@ func genOp(r *hc.Rand, cs Case, fs *el.FileSink, open bool, nextKey int, lastWas
 		}
 		ctxKind := 0
 		if r.Chance(1, 3) {
-			ctxKind = 1 + r.Intn(4)
+			ctxKind = 1 + r.Intn(6)
+		}
+		if r.Chance(1, 30) {
+			return Op{K: "w", Size: 1 + r.Intn(20), Ctx: ctxKind, NoFmt: true}
+		}
+		if r.Chance(1, 40) {
+			size = 1000 + r.Intn(3000) // much larger than any MaxBytes in use
 		}
 		// an event whose formatted value is empty ([]byte{} or nil): as first write, right when the file is due, in between
 		due := c.MaxBytes > 0 && open && int(fs.BytesWritten) >= c.MaxBytes
@@ -1000,6 +1104,7 @@ func execConc(c Case, root string) (res result) {
 	if err := os.Mkdir(dir, 0o750); err != nil {
 		panic(err)
 	}
+	os.Chmod(dir, 0o750)
 	watch, werr := watchDir(dir)
 	tk := &tokenizer{byKey: map[byte][]byte{}, idOf: map[byte]int{}}
 	r := hc.NewRand(c.Seed)
@@ -1043,7 +1148,7 @@ func execConc(c Case, root string) (res result) {
 			}()
 			<-start
 			for _, e := range evs[w] {
-				pctx, pcancel := ctxOf((e.id * 7) % 10) // kinds 5..9 are Background
+				pctx, pcancel := ctxOf((e.id * 7) % 12) // kinds 7..11 are Background
 				if _, err := fs.Process(pctx, &el.Event{Formatted: map[string][]byte{el.JSONFormat: e.data}}); err == nil {
 					acked[w] = append(acked[w], e.id)
 				}
@@ -1077,7 +1182,13 @@ func execConc(c Case, root string) (res result) {
 		}()
 	}
 	close(start)
-	wg.Wait()
+	finished := make(chan struct{})
+	go func() { wg.Wait(); close(finished) }()
+	select {
+	case <-finished:
+	case <-time.After(60 * time.Second):
+		panic("hang: concurrent Process / Reopen callers did not finish within 60 s")
+	}
 	close(stop)
 	rwg.Wait()
 	if panicked != "" {
@@ -1191,7 +1302,7 @@ func childMain(cfgJSON string, dir string) {
 			os.Exit(6)
 		}
 		for i := 1; i <= c.FsizeEvents; i++ {
-			pctx, pcancel := ctxOf(i % 7)
+			pctx, pcancel := ctxOf(i % 9)
 			_, err := fs.Process(pctx, &el.Event{Formatted: map[string][]byte{el.JSONFormat: linePayload(i)}})
 			pcancel()
 			b := byte('a')
@@ -1205,7 +1316,7 @@ func childMain(cfgJSON string, dir string) {
 		os.Exit(0)
 	}
 	for i := 1; ; i++ {
-		pctx, pcancel := ctxOf(i % 7)
+		pctx, pcancel := ctxOf(i % 9)
 		_, err := fs.Process(pctx, &el.Event{Formatted: map[string][]byte{el.JSONFormat: linePayload(i)}})
 		pcancel()
 		if err != nil {
@@ -1409,7 +1520,8 @@ func main() {
 	child := flag.String("child", "", "internal: run as the writer child of a kill case")
 	childDir := flag.String("child-dir", "", "internal")
 	flag.Parse()
-	syscall.Umask(0o022)
+	// the result must not depend on the umask: 0600 / 0700 / explicit modes survive all of these
+	syscall.Umask([]int{0o022, 0o077, 0o002, 0}[hc.Seed()%4])
 
 	if *child != "" {
 		childMain(*child, *childDir)
@@ -1509,7 +1621,7 @@ func main() {
 			for _, p := range []string{"null", "stdout", "stderr"} {
 				for k := 0; k < 2; k++ {
 					c := genCfg(g, false)
-					c.Path, c.Foreign, c.PreDir = p, nil, false
+					c.Path, c.Foreign, c.PreDir, c.PathVar, c.Format = p, nil, false, 0, ""
 					todo = append(todo, Case{ID: id, Gen: "special", Cfg: c, Len: 12, Seed: g.U64()})
 					id++
 				}
@@ -1518,8 +1630,8 @@ func main() {
 			g := r.Fork()
 			for i := 0; i < *nConc; i++ {
 				c := genCfg(g, false)
-				c.Foreign, c.PreDir = nil, false
-				if c.MaxBytes == 0 || c.MaxBytes > 100 {
+				c.Foreign, c.PreDir, c.PathVar, c.Format, c.MaxDurMs = nil, false, 0, "", 0
+				if c.MaxBytes <= 0 || c.MaxBytes > 100 {
 					c.MaxBytes = 20 + g.Intn(80)
 				}
 				nw := 1 + g.Intn(8)
@@ -1544,7 +1656,7 @@ func main() {
 			g := r.Fork()
 			for i := 0; i < *nFsize; i++ {
 				c := genCfg(g, false)
-				c.Foreign, c.PreDir, c.MaxFiles = nil, false, 0
+				c.Foreign, c.PreDir, c.MaxFiles, c.PathVar, c.Format, c.MaxDurMs = nil, false, 0, 0, "", 0
 				if g.Bool() {
 					c.MaxBytes = 0
 				}
@@ -1557,7 +1669,7 @@ func main() {
 			g := r.Fork()
 			for i := 0; i < *nKill; i++ {
 				c := genCfg(g, false)
-				c.Foreign, c.PreDir = nil, false
+				c.Foreign, c.PreDir, c.PathVar, c.Format, c.MaxDurMs = nil, false, 0, "", 0
 				c.MaxBytes = []int{40, 60, 100, 200, 300}[g.Intn(5)]
 				todo = append(todo, Case{ID: id, Gen: "kill", Cfg: c, KillUs: 50 + g.Intn(4000), Seed: g.U64()})
 				id++
